@@ -17,15 +17,18 @@
    numbered; request k fails when g_fail_one == k, or when k >= g_fail_from */
 static long g_alloc_no = 0, g_fail_one = -1, g_fail_from = -1;
 static int g_fail_armed = 0;
-static int h_should_fail(void) {
+#define MAXLIBC 4096
+static long g_libc_idx[MAXLIBC]; static int g_nlibc = 0;     /* which request numbers went to libc */
+static int h_should_fail(int libc) {
     if (!g_fail_armed) return 0;
     long k = g_alloc_no++;
+    if (libc && g_nlibc < MAXLIBC) g_libc_idx[g_nlibc++] = k;
     return (k == g_fail_one) || (g_fail_from >= 0 && k >= g_fail_from);
 }
-int edn_verif_fail_alloc(void) { return h_should_fail(); }   /* arena-level requests (hook) */
-static void* h_malloc(size_t n) { return h_should_fail() ? NULL : malloc(n); }
-static void* h_calloc(size_t a, size_t b) { return h_should_fail() ? NULL : calloc(a, b); }
-static void* h_realloc(void* p, size_t n) { return h_should_fail() ? NULL : realloc(p, n); }
+int edn_verif_fail_alloc(void) { return h_should_fail(0); }   /* arena-level requests (hook) */
+static void* h_malloc(size_t n) { return h_should_fail(1) ? NULL : malloc(n); }
+static void* h_calloc(size_t a, size_t b) { return h_should_fail(1) ? NULL : calloc(a, b); }
+static void* h_realloc(void* p, size_t n) { return h_should_fail(1) ? NULL : realloc(p, n); }
 #define malloc(n) h_malloc(n)
 #define calloc(a, b) h_calloc(a, b)
 #define realloc(p, n) h_realloc(p, n)
